@@ -335,6 +335,23 @@ def hidden_hazards():
     return out
 
 
+def piecewise_trees():
+    """abs / min / max over operands with signed constant factors (a factor may only be pulled out of abs with its absolute
+    value, out of min / max only when it is positive; a negative one swaps min and max)"""
+    x, y = ("var", "x"), ("var", "y")
+    N = lambda v: ("num", Fraction(v))
+    out = []
+    for c in (Fraction(-2), Fraction(-1), Fraction(-1, 2), Fraction(0), Fraction(1, 2), Fraction(2)):
+        ops = [("bin", "Mul", N(c), x), ("bin", "Mul", x, N(c)), ("bin", "Mul", N(c), ("bin", "Add", x, y)), ("bin", "Sub", N(c), x), ("bin", "Mul", ("bin", "Sub", N(0), N(c)), x), ("bin", "Add", ("bin", "Mul", N(c), x), N(1))]
+        if c != 0:
+            ops.append(("bin", "Div", x, N(c)))
+        for o in ops:
+            out += [("abs", o), ("neg", ("abs", o)), ("bin", "Mul", N(c), ("abs", o)), ("nary", "Min", [o, y]), ("nary", "Max", [o, N(1)]), ("nary", "Min", [y, o, N(3)]), ("nary", "Max", [N(-1), o, y]),
+                    ("bin", "Mul", N(c), ("nary", "Max", [x, y])), ("bin", "Mul", ("nary", "Min", [x, N(2)]), N(c)), ("abs", ("nary", "Min", [o, y])), ("bin", "Sub", y, ("abs", o))]
+    out += [("abs", ("neg", x)), ("abs", ("abs", x)), ("abs", ("neg", ("abs", x))), ("nary", "Max", [x, ("neg", x)]), ("nary", "Min", [("neg", x), ("neg", y)]), ("neg", ("nary", "Max", [("neg", x), ("neg", y)])), ("abs", ("bin", "Sub", x, x))]
+    return out
+
+
 def dedup(ts):
     seen = set()
     out = []
@@ -366,7 +383,7 @@ def check(F, R, tier, only=None):
     flat = EXP + "::flatten"
     for p in (simp, flat, "parser::model_transformer::model::simplify_logic_nary", "parser::model_transformer::model::num_truthy", "parser::model_transformer::model::logic_number"):
         R.fn(p)
-    trees = dedup(arith_trees(2, small=(tier != "thorough")) + logic_trees() + hidden_hazards())
+    trees = dedup(arith_trees(2, small=(tier != "thorough")) + logic_trees() + hidden_hazards() + piecewise_trees())
     R.count("REWRITE.trees", len(trees))
     fails = {}
     n_eval = 0
